@@ -76,6 +76,7 @@ func c07eval(r *vx.R, c c07case, fast cipher.AEAD) {
 		return
 	}
 	r.Eval(1)
+	pollute()
 	wantPt, wantOK := refOpen(fast, key, nonce, ct, aad, c.Tag)
 	var dst []byte
 	if c.DstSpare {
